@@ -15,7 +15,7 @@ func init() {
 	core.Register(&core.Prop{
 		ID:    "C07",
 		Level: "exploration",
-		Rule: "PRNG templates of 1..30 lines in which EXACTLY ONE failing construct is planted at a known byte offset: syntax error in an object or in if/assign/for/case/when/cycle arguments, unknown tag, unknown filter, a filter's own error (harness filter returning a sentinel; divided_by: 0), conversion errors, stray end/clause tags, an unterminated block, strict-mode undefined variable, loop-modifier type error, missing include; surrounded by arbitrary text, preceded by multi-line tags/objects, nested 0..6 deep through every block kind and clause (else/elsif/when bodies, later loop iterations, capture bodies); parsed with path in {none, t.liquid, d/t.liquid} x starting line in {0, 1, 1000} through ParseTemplateLocation+Render, ParseTemplate+Render, ParseAndRender and ParseAndRenderString. Oracle: non-nil SourceError, no output with it, Path() = parse path, LineNumber() = start line + newlines before the construct, non-empty message naming the unknown tag/filter, Cause() leading to the wrapped error. Non-trivial = the construct is not on the first line or is nested; distinct = distinct (template, location, entry point).",
+		Rule: "PRNG templates of 1..30 lines in which EXACTLY ONE failing construct is planted at a known byte offset: syntax error in an object or in if/assign/for/case/when/cycle arguments, unknown tag, unknown filter, a filter's own error (harness filter returning a sentinel; divided_by: 0), conversion errors, stray end/clause tags, an unterminated block, strict-mode undefined variable, loop-modifier type error, missing include, and failures of application tags and blocks written against render.Context (a failing object inside a tag/block argument expanded with ExpandTagArg, EvaluateString errors, Errorf, WrapError, plain errors, RenderFile of a missing file, errors in the body of a custom block rendered once or twice); surrounded by arbitrary text, preceded by multi-line tags/objects, nested 0..6 deep through every block kind and clause (else/elsif/when bodies, later loop iterations, capture bodies); parsed with path in {none, t.liquid, d/t.liquid} x starting line in {0, 1, 1000} through ParseTemplateLocation+Render, ParseTemplate+Render, ParseAndRender and ParseAndRenderString. Oracle: non-nil SourceError, no output with it, Path() = parse path, LineNumber() = start line + newlines before the construct, non-empty message naming the unknown tag/filter, Cause() leading to the wrapped error. Non-trivial = the construct is not on the first line or is nested; distinct = distinct (template, location, entry point).",
 		Exhaustive: func(string) bool { return false },
 		Assumptions: []string{
 			"the failing construct of a clause condition (elsif/when) is the clause tag itself",
@@ -82,6 +82,23 @@ func c07Kinds() []c07kind {
 		{name: "include-missing", src: func(n string) string { return "{% include \"no-such-file-" + n + "\" %}" }, render: true, cause: 1},
 		{name: "include-not-string", src: func(string) string { return "{% include 3 %}" }, render: true},
 		{name: "break-outside-loop", src: func(string) string { return "{% break %}" }, render: true, topOnly: true},
+		// application tags and blocks (render.Context): the failing construct is the tag, or the object inside its argument on the same line
+		{name: "custom-tag-arg-filter-error", src: func(string) string { return "{% xecho pre {{ 1 | vfail }} post\n more %}" }, render: true, cause: 1},
+		{name: "custom-tag-arg-syntax", src: func(string) string { return "{% xecho {{ a b }} %}" }, render: true},
+		{name: "custom-tag-arg-unknown-filter", src: func(n string) string { return "{% xecho {{ 1 | nosuchfilter_" + n + " }} %}" }, render: true, mustName: "nosuchfilter_%s"},
+		{name: "custom-block-arg-filter-error", src: func(string) string { return "{% xwrap {{ 1 | vfail }} %}\nbody\n{% endxwrap %}" }, render: true, cause: 1},
+		{name: "custom-block-body-error", src: func(string) string { return "{% xwrap a %}\nbody\n{{ 1 | vfail }}{% endxwrap %}" }, render: true, cause: 2, offset: after("{{ 1")},
+		{name: "custom-block-twice-body-error", src: func(string) string { return "{% xtwice %}\n\n{% if true %}{{ 1 | vfail }}{% endif %}{% endxtwice %}" }, render: true, cause: 2, offset: after("{{ 1")},
+		{name: "custom-tag-errorf", src: func(n string) string { return "{% xfail " + n + " %}" }, render: true, mustName: "custom failure %s"},
+		{name: "custom-tag-wraperror", src: func(string) string { return "{% xwrapfail %}" }, render: true, cause: 3},
+		{name: "custom-tag-plain-error", src: func(string) string { return "{% xplainfail\n %}" }, render: true, cause: 3},
+		{name: "custom-block-errorf", src: func(n string) string { return "{% xbfail " + n + " %}\n{% endxbfail %}" }, render: true, mustName: "custom block failure %s"},
+		{name: "custom-block-plain-error", src: func(string) string { return "{% xbplain %}\nb\n{% endxbplain %}" }, render: true, cause: 3},
+		{name: "custom-tag-evaluatestring-error", src: func(string) string { return "{% xeval 1 | vfail %}" }, render: true, cause: 2},
+		{name: "custom-tag-evaluatestring-syntax", src: func(string) string { return "{% xeval a b %}" }, render: true},
+		{name: "custom-block-evaluatestring-error", src: func(string) string { return "{% xwhen 1 | vfail %}\n{% endxwhen %}" }, render: true, cause: 2},
+		{name: "custom-tag-renderfile-missing", src: func(n string) string { return "{% xfile no-such-file-" + n + " %}" }, render: true, cause: 1},
+		{name: "custom-block-renderfile-missing", src: func(n string) string { return "{% xbfile no-such-file-" + n + " %}{% endxbfile %}" }, render: true, cause: 1},
 	}
 }
 
@@ -109,6 +126,7 @@ func runC07(c *core.Ctx) {
 	mk := func(strict bool) *liquid.Engine {
 		e := liquid.NewEngine()
 		e.RegisterFilter("vfail", func(v any) (any, error) { return nil, c07Sentinel })
+		RegisterCustom(e)
 		// a filter that renders a snippet with another engine and hands back that engine's SourceError: the
 		// failure of THIS template is still located at the object that applied the filter
 		inner := liquid.NewEngine()
@@ -247,6 +265,8 @@ func runC07(c *core.Ctx) {
 				c.Violate("cause-nil|"+k.name, "the failure wraps another error but Cause() is nil", wit("Cause()=nil"))
 			} else if k.cause == 2 && !carries(res.SrcErr, c07Sentinel) {
 				c.Violate("cause-lost|"+k.name, "the wrapped filter error is not what Cause() leads to", wit("sentinel not reachable from Cause()"))
+			} else if k.cause == 3 && !carries(res.SrcErr, errCustomPlain) {
+				c.Violate("cause-lost|"+k.name, "the error a tag returned is not what Cause() leads to", wit("the tag's own error is not reachable from Cause()"))
 			}
 		}
 	}
